@@ -56,6 +56,7 @@ class Tracer:
         self.prev_q = None
         self.zero_steps = 0
         self.new_static = []
+        self.pidx = {}  # work profile id -> idx
 
     # -- registration -------------------------------------------------------
     def graph_index(self, tg):
@@ -83,6 +84,15 @@ class Tracer:
                 "ninv": self._cl(tg, "num_invocations"),
             }
             self.new_static.append({"graph": stat, "tasks": [self.static_task(t, tg) for t in tg.get_nodes()]})
+        return i
+
+    def prof_index(self, prof):
+        if prof is None:
+            return 0
+        i = self.pidx.get(prof.id)
+        if i is None:
+            i = len(self.pidx) + 1
+            self.pidx[prof.id] = i
         return i
 
     @staticmethod
@@ -130,6 +140,7 @@ class Tracer:
             "strats": [self.strat_desc(s) for s in t.available_execution_strategies],
             "sink": bool(tg.is_sink_task(t)),
             "src": bool(tg.is_source_task(t)),
+            "prof": self.prof_index(t.profile),
         }
 
     # -- projection -----------------------------------------------------------
@@ -157,6 +168,15 @@ class Tracer:
             "tm": self.tm(pl.placement_time),
         }
 
+    def prof_plan_desc(self, pl):
+        ls = pl.loading_strategy
+        return {
+            "pool": self.pool_idx.get(pl.worker_pool_id, 0),
+            "wk": self.worker_idx[pl.worker_id][1] if pl.worker_id is not None else 0,
+            "sd": self.strat_desc(ls),
+            "tm": self.tm(pl.placement_time),
+        }
+
     def dyn_task(self, t):
         return {
             "st": t.state.value,
@@ -181,7 +201,9 @@ class Tracer:
             "tm": self.tm(e.time),
             "t": self.task_index(e.task) if e.task is not None else 0,
             "g": self.gidx.get(e.task_graph, 0) if (e.task is None and e.task_graph is not None) else 0,
-            "pl": self.plan_desc(e.placement) if (e.placement is not None and e.event_type.value in (8, 10)) else dict(self.NOPLAN),
+            "pl": self.plan_desc(e.placement) if (e.placement is not None and e.event_type.value in (8, 10)) else (
+                self.prof_plan_desc(e.placement) if (e.placement is not None and e.event_type.value in (2, 9)) else dict(self.NOPLAN)),
+            "pr": self.prof_index(e.placement.work_profile) if (e.placement is not None and e.event_type.value in (2, 9)) else 0,
         }
 
     def ev_key(self, d):
@@ -192,6 +214,7 @@ class Tracer:
             d["t"],
             d["g"],
             (pl["pool"], pl["wk"], pl["tm"], pl["sd"]["rt"]),
+            d.get("pr", 0),
         )
 
     def project(self):
@@ -225,6 +248,8 @@ class Tracer:
                     "av": [w.resources.get_available_quantity(r) for r in self.inst[key]],
                     "occ": occ,
                     "inpool": sorted(o["t"] for o in occ if o["t"] in pp),
+                    "pend": sorted(self.prof_state(w, key, p, w._pending_profiles[p]) for p in w.get_pending_profiles()),
+                    "avl": sorted(self.prof_state(w, key, p, w._available_profiles[p]) for p in w.get_available_profiles()),
                 }
         q = [self.ev_desc(e) for e in sim._event_queue._event_queue]
         q.sort(key=self.ev_key)
@@ -250,6 +275,16 @@ class Tracer:
             "wl": [self.gidx[name] for name in sim._workload.task_graphs.keys()],
         }
         return state, tasks, workers
+
+    def prof_state(self, w, key, prof, strat):
+        """[profile idx, remaining loading time, demand, allocation list] as a list (sortable)"""
+        al = w.resources._current_allocations.get(prof) if prof in w.resources._current_allocations else []
+        return [
+            self.prof_index(prof),
+            self.tm(strat.runtime),
+            [{"name": r.name, "id": r.id, "q": q} for r, q in strat.resources.resources],
+            [[next(k + 1 for k, r in enumerate(self.inst[key]) if r.id == res.id), q] for res, q in al],
+        ]
 
     def tidx_by_strid(self, sid):
         return self.tidx[sid] if sid in self.tidx else self._tidx_str(sid)
@@ -415,7 +450,7 @@ def _install(tr: Tracer):
             return orig_handle(self, event)
         tr.zero_steps = 0
         d = tr.ev_desc(event)
-        rec = {"k": "ev", "ty": d["ty"], "tm": d["tm"], "t": d["t"], "g": d["g"], "pl": d["pl"]}
+        rec = {"k": "ev", "ty": d["ty"], "tm": d["tm"], "t": d["t"], "g": d["g"], "pl": d["pl"], "pr": d["pr"]}
         tr.begin(rec)
         exc = None
         try:
@@ -460,7 +495,9 @@ def _install(tr: Tracer):
             # monotonicity probes on the same state (random state restored: RANDOM policy draws)
             st = random.getstate()
             try:
-                for dla, prtg in ((1, rtg), (4, rtg), (0, True)):
+                # probes only for the first frontier call of a handler (the policy's own call and the one in
+                # __get_next_scheduler_event see the same task states)
+                for dla, prtg in (((1, rtg), (4, rtg), (0, True)) if not tr.cur["offers"] else ()):
                     kw2 = dict(kw)
                     kw2["lookahead"] = la + EventTime(dla, EventTime.Unit.US)
                     kw2["release_taskgraphs"] = prtg
@@ -528,7 +565,13 @@ def _install(tr: Tracer):
 
 def tr_dec(tr, p):
     kind = p.placement_type.value  # 1 evict 2 load 3 cancel 4 place
-    d = {"kind": kind, "t": 0, "placed": False, "pool": 0, "wk": 0, "sd": dict(Tracer.NOSD), "tm": -1}
+    d = {"kind": kind, "t": 0, "placed": False, "pool": 0, "wk": 0, "sd": dict(Tracer.NOSD), "tm": -1, "pr": 0}
+    if kind in (1, 2):
+        d["pr"] = tr.prof_index(p.work_profile)
+        d["pool"] = tr.pool_idx.get(p.worker_pool_id, 0)
+        d["wk"] = tr.worker_idx[p.worker_id][1] if p.worker_id is not None else 0
+        d["sd"] = tr.strat_desc(p.loading_strategy)
+        d["tm"] = tr.tm(p.placement_time)
     if kind in (3, 4):
         d["t"] = tr.task_index(p.task)
         d["placed"] = bool(p.is_placed())
